@@ -30,8 +30,8 @@ InBox(p, e) == /\ Mn(e[1][1], e[2][1]) <= p[1] /\ p[1] <= Mx(e[1][1], e[2][1])
 OnSeg(p, e) == Orient(e[1], e[2], p) = 0 /\ InBox(p, e)
 InteriorOf(p, e) == OnSeg(p, e) /\ XY(p) # XY(e[1]) /\ XY(p) # XY(e[2])
 IsVerticalSeg(e) == e[1][1] = e[2][1]
-T(p) == <<p[2], p[1]>>                      \* transposition
-TE(e) == Norm(<<T(e[1]), T(e[2])>>)
+Tr(p) == <<p[2], p[1]>>                      \* transposition
+TrE(e) == Norm(<<Tr(e[1]), Tr(e[2])>>)
 
 \* a1 + (sN/k)*va, exact; the quotient must be integral in the domain
 Along(a1, va, sN, k) ==
